@@ -308,7 +308,9 @@ pub fn gen_bedrock(c: &mut Chooser) -> BedrockState {
             long_string(120),
         ])
     };
-    let n = pick(c, &[12usize, 6, 7, 8, 9]);
+    // number of fields; `true`: the last (optional) field is present but empty, i.e. the status ends in ';' - which an
+    // old server with only six mandatory fields and a closing ';' also looks like
+    let (n, last_empty) = pick(c, &[(12usize, false), (6, false), (7, false), (8, false), (9, false), (7, true), (8, true)]);
     let mut fields = vec![
         fs(c, "MCPE"),
         fs(c, "Dedicated Server"),
@@ -324,6 +326,9 @@ pub fn gen_bedrock(c: &mut Chooser) -> BedrockState {
         "19133".to_string(),
     ];
     fields.truncate(n);
+    if last_empty {
+        fields[n - 1] = String::new();
+    }
     BedrockState {
         fields,
         server_guid: pick(c, &u64_alts(0x0102_0304_0506_0708)),
